@@ -112,7 +112,10 @@ def check_adjoint(case):
     u = rng.integers(-8, 9, size=ref.num_faces).astype(float)
     lhs = float(p @ div.dot(u))
     rhs = float(u @ got)
-    if abs(lhs - rhs) > 1e-12 * (1 + abs(lhs)):
+    # both sides are sums of products area * p * u that may cancel: rounding is relative to the
+    # sum of the magnitudes, not to the (possibly tiny) result
+    mag = float(np.abs(p) @ (np.abs(ref.divergence()) @ np.abs(u))) if ref.num_faces else 0.0
+    if abs(lhs - rhs) > 1e-13 * (1 + mag):
         raise Violation("adjoint-identity", f"<p, div u> = {lhs!r} but <div^T p, u> = {rhs!r}", t)
     return Outcome(_nt(case), _key(case), _lab(case))
 
